@@ -82,13 +82,18 @@ struct Toggler {
     at: u64,
     cmd: &'static str,
     done: bool,
+    /// number of program events seen before the toggle (filled in by the driver hook below)
+    toggled_at_event: Option<usize>,
+    calls_at_toggle: u64,
 }
 impl Host for Toggler {
-    fn boundary(&mut self, sess: &mut Sess, turn: u64, _st: St) -> Result<bool, Crash> {
+    fn boundary(&mut self, sess: &mut Sess, turn: u64, _st: St, events_so_far: usize) -> Result<bool, Crash> {
         if self.done || turn < self.at {
             return Ok(false);
         }
         self.done = true;
+        self.calls_at_toggle = turn;
+        self.toggled_at_event = Some(events_so_far);
         sess.brk()?;
         let r = sess.line(self.cmd)?;
         if r.err.is_some() || !r.out.is_empty() {
@@ -242,7 +247,7 @@ fn check(c: &TwCase, rec: &mut CaseRec) -> Verdict {
             Ok(Ok(())) => {}
             other => return Verdict::fail("valid-line-rejected", show(format!("{:?}", other.map_err(|c| c.0)))),
         }
-        let mut host = Toggler { at: c.toggle_after as u64, cmd, done: false };
+        let mut host = Toggler { at: c.toggle_after as u64, cmd, done: false, toggled_at_event: None, calls_at_toggle: 0 };
         let tr = match drive(&mut sess, "RUN", &c.replies, BUDGET * 2, &mut host) {
             Ok(t) => t,
             Err(Crash(p)) => return Verdict::fail(if p.contains("panic") { "panic" } else { "trace-command-at-breakpoint" }, show(p)),
@@ -250,6 +255,21 @@ fn check(c: &TwCase, rec: &mut CaseRec) -> Verdict {
         let reference = Transcript { events: base_ev.clone(), end: base_end.clone(), calls: 0, stops: 0, replies: 0 };
         if let Err(why) = same_behaviour(&reference, &tr) {
             return Verdict::fail("trace-toggle-changes-behaviour", show(format!("{} after {} calls: {}", cmd, c.toggle_after, why)));
+        }
+        if host.done {
+            // the command takes effect from the breakpoint on: the STOP-like BREAK notice of the host break marks it
+            let split = host.toggled_at_event.unwrap_or(0).min(tr.events.len());
+            let before = tr.events[..split].iter().filter(|e| matches!(e, TEvent::Trace(_))).count();
+            let after = tr.events[split..].iter().filter(|e| matches!(e, TEvent::Trace(_))).count();
+            if cmd == "NOTRACE" && after > 0 {
+                return Verdict::fail("notrace-does-not-stop-tracing", show(format!("{} trace records after NOTRACE typed after {} calls", after, c.toggle_after)));
+            }
+            if cmd == "TRACE" && before > 0 {
+                return Verdict::fail("trace-before-trace-command", show(format!("{} trace records before TRACE was typed", before)));
+            }
+            if cmd == "TRACE" && after == 0 && tr.calls > host.calls_at_toggle + 2 {
+                return Verdict::fail("trace-command-does-not-start-tracing", show(format!("no trace record in {} calls after TRACE", tr.calls - host.calls_at_toggle)));
+            }
         }
         if host.done {
             rec.class("trace-toggled-mid-run");
